@@ -286,3 +286,14 @@ Section AD.
       cbn [anondecr alast_time] in AW. apply AW. split; [lia|exact Hm].
   Qed.
 End AD.
+
+(** The hypotheses are satisfiable and the statements non-vacuous: min 1, max 4, step 1, factor 1/2,
+    window 1 s, start rate 2 (2 tokens): two grants, a denial, feedback moves the rate within [1, 4]. *)
+Example ad_example :
+  let p := Build_adp Qops 1 4 1 (1 # 2) 1 in
+  let s0 := Build_ads Qops 2 2 None in
+  (0 < ad_min p /\ ad_min p <= ad_max p /\ 0 <= ad_inc p /\ (0 < ad_dec p /\ ad_dec p <= 1) /\ 0 <= ad_win p) /\
+  rate_ok p s0 /\ ad_tokens s0 == ad_rate s0 * ad_win p /\
+  snd (run_count agranted (ad_step Qops p) s0 [ACall (Acq 0); ACall (Acq 0); ACall (Acq 0); RecS 0; RecF 0; ACall (Acq 1000000000)]) = 3%Z /\
+  snd (ad_tua Qops p (Build_ads Qops 2 0 (Some 0%Z)) 0) = 500000000%Z.
+Proof. vm_compute. repeat split; congruence. Qed.
